@@ -213,6 +213,38 @@ pub fn specs() -> Vec<PropSpec> {
             assumptions: CUT_ASSUMPTIONS,
         },
         PropSpec {
+            id: "C10",
+            parts: &[("c10", 480, 20000)],
+            level: "exploration",
+            tags: &["C10"],
+            rule: "Each evaluation is one seeded sequence of 25-75 \
+                operations against the real publication server of a \
+                simulated instance (disk or memory back-end, per-run RRDP \
+                retention configuration): raw publishers with handles \
+                that are prefixes of one another, nested (a, a/b) and \
+                differing in case are added and removed; they send list \
+                queries and deltas of 1-5 elements through \
+                RepositoryManager::rfc8181_message - valid ones, the same \
+                with upper-case scheme and host, and deltas with exactly \
+                one bad element at a drawn position (publish of an \
+                existing URI, update/withdraw with a wrong hash or of an \
+                absent URI, update/withdraw/publish in another \
+                publisher's space, look-alike directory, above the base, \
+                other host); interleaved with RRDP updates through the \
+                real scheduler, session resets, clock advances and \
+                restarts. A reference model (map per publisher) predicts \
+                accept/refuse of every delta (iff of the statement) and \
+                of every publisher registration; after EVERY operation \
+                the list reply and the publisher details of EVERY \
+                publisher must equal the model, the served RRDP files \
+                must be consistent and applicable by the client \
+                population, and at quiescence the snapshot must equal \
+                the publishers' content with nothing foreign below any \
+                publisher's base. Non-trivial: at least one accepted \
+                delta; distinct: distinct operation/result logs.",
+            assumptions: COMMON_ASSUMPTIONS,
+        },
+        PropSpec {
             id: "C11",
             parts: &[("c11", 320, 6000), ("c11cuts", 16, 320)],
             level: "exploration",
@@ -399,6 +431,21 @@ pub fn run_profile(
         let res = std::thread::Builder::new()
             .stack_size(32 * 1024 * 1024)
             .spawn(move || crate::conc::run(seed, &profile, None))
+            .expect("spawn").join();
+        return match res {
+            Ok(report) => report,
+            Err(p) => RunReport {
+                seed,
+                profile: name.to_string(),
+                harness_error: Some(crate::util::panic_message(&p)),
+                ..Default::default()
+            }
+        }
+    }
+    if name == "c10" {
+        let res = std::thread::Builder::new()
+            .stack_size(32 * 1024 * 1024)
+            .spawn(move || crate::c10::run(seed))
             .expect("spawn").join();
         return match res {
             Ok(report) => report,
